@@ -172,7 +172,7 @@ func checkArrivalOrderIndependence(c *core.Ctx, rule string, only ...string) int
 					args = append(args, &eval.ChanVal{Name: "done"})
 				}
 			}
-			if _, err := ev.CallFunc(fn, args...); err != nil {
+			if _, err := ev.CallFuncBound(fn, args...); err != nil {
 				return "", err
 			}
 			var ids []string
